@@ -289,9 +289,32 @@ def s_mul(a, b):
   return Z(a) * Z(b)
 
 
+def _ieee_div_by_zero(a):
+  """a / 0 as floating point does it (only when the case asks for it: ctx().memo['ieee_div0']): +-inf by the sign
+  of a, NaN (reported as `Undefined`) for 0/0; an undetermined sign splits the case."""
+  c = ctx()
+  if isinstance(a, Frac):
+    raise HarnessError('ieee division of a fraction by zero')
+  if not is_z(a):
+    if a == 0:
+      raise Undefined('0/0 = NaN')
+    return Inf(float('inf') if a > 0 else float('-inf'))
+  pos = c.resolve(a > 0)
+  if pos is True:
+    return Inf(float('inf'))
+  neg = c.resolve(a < 0)
+  if neg is True:
+    return Inf(float('-inf'))
+  if pos is False and neg is False:
+    raise Undefined('0/0 = NaN')
+  raise NeedSplit(a > 0 if pos is not False else a < 0, 'sign of the numerator of a division by an exact zero')
+
+
 def s_div(a, b):
   if isinstance(a, Inf) or isinstance(b, Inf):
     return _inf_arith('div', a, b)
+  if not is_sym(b) and b == 0 and ctx().memo.get('ieee_div0'):
+    return _ieee_div_by_zero(a)
   if isinstance(b, Frac):
     # a / (n/d) = a*d / n
     if isinstance(a, Frac):
